@@ -122,8 +122,11 @@ func (h *HarnessRun) noteAssumption(a string) { h.Assumptions[a] = true }
 // stubFor returns the harness-provided replacement for fn, if any.
 func (h *HarnessRun) stubFor(e *Exec, fn *ssa.Function, caller *ssa.Function) *ssa.Function {
 	if caller != nil && strings.HasPrefix(caller.Name(), "zz") {
-		// harness code calls the real thing
-		return nil
+		// harness code calls the real thing -- except errors.Is/As, whose
+		// real bodies need reflectlite (the Go-level models are used instead)
+		if n := fn.String(); n != "errors.Is" && n != "errors.As" || strings.HasPrefix(caller.Name(), "zzStub_errors") || strings.HasPrefix(caller.Name(), "zzErrIs") {
+			return nil
+		}
 	}
 	var cpkg *ssa.Package
 	if caller != nil {
